@@ -27,7 +27,7 @@ PROPS["C12"] = {
     "design_ref": "DESIGN.md section 5, C12",
 }
 PROPS["C19"] = {
-    "units": {"kani": ["c19_base64", "c19_automaton"]},
+    "units": {"kani": ["c19_base64", "c19_automaton", "c19_complete_flag"]},
     "scope": "the base64 alphabet table and the derived two-character lookup table used by the in-circuit base64 chip",
     "not_decided": ["regex -> automaton pipeline (determinisation, minimisation, complement, marker-aware intersection over hash sets)",
                     "the in-circuit parser and base64 chip", "shipped serialized automata", "decode_char (lazy_static HashMap)", "two_entry_table (4096-element Vec construction: CBMC does not finish, Verus cannot ingest the iterator loops)"],
@@ -39,7 +39,7 @@ PROPS["C19"] = {
     "design_ref": "DESIGN.md section 5, C19",
 }
 PROPS["C16"] = {
-    "units": {"kani": ["c16_serialization", "c16_pack", "c10_bytes", "c16_arch_columns"], "polyvc": ["c11_bls"]},
+    "units": {"kani": ["c16_serialization", "c16_pack", "c10_bytes", "c16_arch_columns", "c16_zkir_arity"], "polyvc": ["c11_bls", "c16_zkir_routing"]},
     "scope": "pure-Rust byte decoders: the automaton Serialize::deserialize family, pack/unpack of selector bytes, and (shared with C10) the canonical-field-encoding decoders",
     "not_decided": ["VerifyingKey::read_from_cs, bincode itself, the rest of ZkStdLib::configure, ParamsKZG::read_custom, IR loading: generic / iterator / FFI code",
                     "the fixed-commitment-count panic described in the property text (verifier.rs indexes vk.fixed_commitments) is NOT reachable by this family; the out-of-range column-count one is (and was repaired)",
